@@ -1,0 +1,30 @@
+//go:build verif
+
+package batchrelease
+
+import (
+	"sync"
+
+	"github.com/openkruise/rollouts/pkg/util"
+	"sigs.k8s.io/controller-runtime/pkg/controller"
+	"sigs.k8s.io/controller-runtime/pkg/handler"
+)
+
+// VerifSetRuntimeController installs the controller / handler that Reconcile uses to add
+// workload watchers dynamically (what add() does) and returns the old ones (verification harness only).
+func VerifSetRuntimeController(c controller.Controller, h handler.EventHandler) (controller.Controller, handler.EventHandler) {
+	oc, oh := runtimeController, workloadHandler
+	runtimeController, workloadHandler = c, h
+	return oc, oh
+}
+
+// VerifResetWatched puts the dynamic watch registry back into the state init() leaves it in.
+func VerifResetWatched() {
+	watchedWorkload = sync.Map{}
+	watchedWorkload.LoadOrStore(util.ControllerKindDep.String(), struct{}{})
+	watchedWorkload.LoadOrStore(util.ControllerKindSts.String(), struct{}{})
+	watchedWorkload.LoadOrStore(util.ControllerKruiseKindDS.String(), struct{}{})
+	watchedWorkload.LoadOrStore(util.ControllerKruiseKindCS.String(), struct{}{})
+	watchedWorkload.LoadOrStore(util.ControllerKruiseKindSts.String(), struct{}{})
+	watchedWorkload.LoadOrStore(util.ControllerKruiseOldKindSts.String(), struct{}{})
+}
